@@ -1100,6 +1100,10 @@ func workerBody(w *confgen.Worker) {
 			continue
 		}
 		if i%5 == 2 {
+			if i%20 == 12 {
+				runSharedObject(w, i, rng)
+				continue
+			}
 			runReresolve(w, i, rng)
 			continue
 		}
